@@ -1034,13 +1034,15 @@ func (s *v4Server) handleDecline(req, resp *dhcpv4.DHCPv4) (err error) {
 		return nil
 	}
 
-	newLease.Hostname = oldLease.Hostname
-	newLease.Expiry = time.Now().Add(s.conf.leaseTime)
-
-	err = s.addLease(newLease)
-	if err != nil {
-		return fmt.Errorf("adding new lease for %s: %w", mac, err)
+	// The new lease has already been added to the table by allocateLease, so
+	// only commit it.  Keep the hostname of the declined lease unless it was
+	// generated from the declined address.
+	hostname := oldLease.Hostname
+	if hostname == aghnet.GenerateHostname(oldLease.IP) {
+		hostname = ""
 	}
+
+	s.commitLease(newLease, hostname)
 
 	log.Info("dhcpv4: changed IP from %s to %s for %s", reqIP, newLease.IP, mac)
 
